@@ -53,7 +53,7 @@ func (Engine) Describe(prop string) core.Description {
 			"the document's own Links map is not part of what the statement protects (MarshalDocument adds the self link to it)",
 			"every permutation of a map's iteration order is a legal behaviour of the Go runtime",
 		}
-		d.Probes = []string{"twin-permuted-tomany", "twin-permuted-included", "twin-permuted-fields", "adversarial-map-order", "kind-nil", "kind-resource", "kind-softcollection", "kind-resources", "kind-wrappercollection", "kind-identifier", "kind-identifiers", "with-errors", "with-included", "document-and-url-reused-after-edit", "resource-with-copy-on-read-get", "many-included"}
+		d.Probes = []string{"exotic-names", "twin-permuted-tomany", "twin-permuted-included", "twin-permuted-fields", "adversarial-map-order", "kind-nil", "kind-resource", "kind-softcollection", "kind-resources", "kind-wrappercollection", "kind-identifier", "kind-identifiers", "with-errors", "with-included", "document-and-url-reused-after-edit", "resource-with-copy-on-read-get", "many-included"}
 	case "C03":
 		d.Stub = []string{"independent JSON:API document-structure validator (written from the JSON:API grammar, not from the library)"}
 		d.Rule = "one run = one seeded schema (names and IDs that JSON must escape included), a document whose primary data is a resource / SoftCollection / WrapperCollection / Resources, a history of 0..12 Document.Include calls (repeats, primary-data resources, same ID under another type), marshaled under a seeded map order and validated: JSON object, jsonapi member, self link, data xor errors, included only with data, resource objects (type, id, self link = prefix+type+id), relationship objects (self/related links, data shape), no type/ID pair twice across primary data and included; " +
@@ -62,7 +62,7 @@ func (Engine) Describe(prop string) core.Description {
 			"IDs are non-empty; identifiers as primary data do not count as duplicates of an included resource",
 			"the uniqueness clause is checked only when included resources were added through Include (as the statement says)",
 		}
-		d.Probes = []string{"include-repeat", "include-primary-resource", "include-same-id-other-type", "include-on-resources-collection", "include-on-softcollection", "include-on-wrappercollection", "include-on-single-resource", "doc-with-errors", "exotic-names", "primary-member-replaced-between-includes", "earlier-payload-revalidated", "resource-without-id"}
+		d.Probes = []string{"same-resources-under-another-prefix", "include-repeat", "include-primary-resource", "include-same-id-other-type", "include-on-resources-collection", "include-on-softcollection", "include-on-wrappercollection", "include-on-single-resource", "doc-with-errors", "exotic-names", "primary-member-replaced-between-includes", "earlier-payload-revalidated", "resource-without-id"}
 	}
 
 	d.Rule += "; documents may carry top-level links of their own next to the self link; in a quarter of the runs the schema is reached through a longer edit history (scaffold types added between the real ones and removed again, an attribute added after its type, temporary fields added and removed) with the same final content"
@@ -205,7 +205,13 @@ func schemaOpts(names world.NameStyle) world.SchemaOptions {
 func runC11(t *core.Tape, st *core.Stats) *core.Violation {
 	const P = "C11"
 
-	spec := world.DrawSchema(t, schemaOpts(world.NamesPlain))
+	names := world.NamesPlain
+	if t.Bool(1, 4) {
+		names = world.NamesExotic // names that JSON and URLs must escape
+		st.Inc("probe:exotic-names")
+	}
+
+	spec := world.DrawSchema(t, schemaOpts(names))
 
 	var (
 		schema *jsonapi.Schema
